@@ -27,6 +27,40 @@ def openAll (groups : List Nat) (templates : List (List Tok)) : List Nat :=
 theorem templates_closed : openAll Generated.templateGroups Generated.templates = [] := by
   decide +kernel
 
+/-! ### method calls
+
+A path (`::core::cmp::Ord::cmp(a, b)`) names its function whatever the derive site declares; a method call
+(`a.cmp(b)`) is resolved by the type of `a`, inherent methods first - a user's own `fn cmp` on the type would be
+called instead. The templates of the current source contain method calls on two receivers only, both of them
+locals of `core::fmt` types that the templates bind themselves (`f: &mut Formatter`, `builder = f.debug_*(..)`),
+and only with the builder methods of `core::fmt`. -/
+
+/-- names as code points -/
+def nameOf (n : Nat) : List Nat := Generated.identCodes.getD n []
+
+/-- `f`, `builder` -/
+def fmtReceivers : List (List Nat) := [[102], [98, 117, 105, 108, 100, 101, 114]]
+
+/-- `write_str`, `debug_struct`, `debug_tuple`, `debug_map`, `field`, `entry`, `finish` -/
+def fmtMethods : List (List Nat) :=
+  [[119, 114, 105, 116, 101, 95, 115, 116, 114], [100, 101, 98, 117, 103, 95, 115, 116, 114, 117, 99, 116],
+   [100, 101, 98, 117, 103, 95, 116, 117, 112, 108, 101], [100, 101, 98, 117, 103, 95, 109, 97, 112],
+   [102, 105, 101, 108, 100], [101, 110, 116, 114, 121], [102, 105, 110, 105, 115, 104]]
+
+def methodCallOK : Tok × Nat → Bool
+  | (.id r, m) => fmtReceivers.contains (nameOf r) && fmtMethods.contains (nameOf m)
+  | _ => false
+
+/-- **Every method call of every template is a `core::fmt` builder call on a local of the template**: no generated
+    call is resolved through the methods of a user's type. -/
+theorem method_calls_only_on_fmt_locals :
+    (Generated.templates.flatMap (methodCalls .lit)).all methodCallOK = true := by
+  decide +kernel
+
+/-- the table is not vacuous: the Debug templates do contain such calls -/
+theorem method_calls_present : (Generated.templates.flatMap (methodCalls .lit)).length ≥ 7 := by
+  decide +kernel
+
 theorem template_closed_of_mem {g : Nat} {t : List Tok}
     (h : (g, t) ∈ Generated.templateGroups.zip Generated.templates) :
     openIdents (groupBinders Generated.templateGroups Generated.templates g) t = [] := by
